@@ -881,6 +881,10 @@ class CompilerPassGenerateCode(CompilerPass):
         if not value_sym.code_expr:
             value_sym.code_expr = self.get_intermediate_symbol(node, True).code_expr
         data = node._ndata
+        # targets of 'continue' / 'break' in the body: the body is a subroutine called once per
+        # element, so 'continue' returns to the caller and 'break' leaves through the end label
+        data.start_label = "ra"
+        data.end_label = end_label
         data.add(IC10("move", [for_label], value_sym))
         data.add(IC10(f"{for_label}:"))
         for v in values:
